@@ -371,7 +371,9 @@ PyObject* HTMC::cbincount(double rmin, // units of scale*angle in radians
                         if (dis <= maxangle) {
                             double logr = logscale + log10(dis);
 
-                            int radbin = (int) ( (logr-logrmin)/log_binsize );
+                            // floor, not a truncating cast: pairs just below
+                            // rmin must not be counted in the first bin
+                            int radbin = (int) floor( (logr-logrmin)/log_binsize );
                             if (radbin >=0 && radbin < nbin) {
                                 npy_int64 *cptr = (npy_int64 *) PyArray_GETPTR1((PyArrayObject *) counts_array, radbin);
                                 *cptr += 1;
